@@ -11,7 +11,7 @@ def run(ctx):
         res = core.tlc(ctx, d, "Gen_ConfigLayout.tla", "Gen_ConfigLayout_sample.cfg", timeout=900, extra=["-seed", str(ctx.seed)])
         cells = res.behaviours
     else:
-        # all 1.1M cells do not fit one run (the cell list, the harness input and the trace are held at once): 14 seeded samples
+        # all 3.3M cells do not fit one run (the cell list, the harness input and the trace are held at once): 14 seeded samples
         cells, seen = [], set()
         for i in range(14):
             d = ctx.specdir("gen_cfg%d" % i)
@@ -19,7 +19,7 @@ def run(ctx):
                 k = json.dumps(b, sort_keys=True)
                 if k not in seen:
                     seen.add(k); cells.append(b)
-    ctx.say("  cells: %d (option cells with a fixed listener + listener cells with fixed options; 1.1M in the model)" % len(cells))
+    ctx.say("  cells: %d (option cells with a fixed listener + listener cells with fixed options; 3.3M in the model)" % len(cells))
     hb = core.build_harness(ctx)
     trace, summ = core.run_harness(ctx, hb, "config", cells, "config", timeout=3000)
     for inc in summ["incidents"]:
@@ -40,7 +40,7 @@ def run(ctx):
         evs = [json.loads(l) for l in x["lines"]]
         core.report(ctx, {"check": "Mon_ShellSafe", "invariant": x["invariant"], "class": evs[0].get("cls", "?")}, {"events": evs})
     core.write_evidence(ctx, "model_checking",
-        rule="cells = build-option combinations (sleep technique x jump gadget x stack duplication x proxy loading x alloc x execute x syscall x AMSI/ETW x sleep x jitter) with a fixed listener, and listener configurations (HTTP/SMB, host lists with/without ports incl. non-numeric and IPv6, port fallback, 0..2 headers, host header, 0..2 URIs, proxy, 10 working-hours strings, method, rotation, TLS, kill date) with fixed options; each cell goes through the real PatchConfig and the block is read back field by field by a reader written from DemonConfig(); plus 10 service-name classes through a real Build() with stub compiler/assembler that record argv; non-trivial = cells",
+        rule="cells = build-option combinations (sleep technique x jump gadget x stack duplication x proxy loading x alloc x execute x syscall x AMSI/ETW x sleep x jitter) with a fixed listener, and listener configurations (HTTP/SMB, host lists with/without ports incl. non-numeric and IPv6, port fallback, 0..2 headers, host header, 0..2 URIs, proxy, 10 working-hours strings, method, rotation, TLS, kill date, strings in ASCII / with a basic-plane character / with a character beyond it) with fixed options; each cell goes through the real PatchConfig and the block is read back field by field by a reader written from DemonConfig(); plus 10 service-name classes through a real Build() with stub compiler/assembler that record argv; non-trivial = cells",
         samples=(summ["samples"] + summ2["samples"])[:8], evaluations=summ["behaviours"] + summ2["behaviours"], distinct_nontrivial=len(cells) + summ2["behaviours"],
         exhaustive=False, extra={"counters": summ["counters"], "shell": summ2["samples"]},
         assumptions=["the real mingw/nasm toolchain is replaced by stubs; only the command line is observed", "numeric codes and field order are transcribed from payloads/Demon (Demon.c, SleepObf.h, Defines.h)"])
